@@ -505,6 +505,26 @@ def rule_free(ctx: Ctx) -> List[Ob]:
     a_src = src(a_exp).replace(" ", "")
     okc = ("~np.isin(np.arange(n),free_vars)" in src(av.value).replace(" ", "")) or ("np.setdiff1d(np.arange(n),free_vars)" in a_src) or \
         ("np.isin(np.arange(n),free_vars,invert=True)" in a_src)
+    if not okc:
+        # structural form: [positions of] NOT (all variables IN free set), every temporary followed
+        e3 = a_exp
+        if isinstance(e3, ast.Subscript) and src(e3.slice) == "0":
+            e3 = e3.value
+        if isinstance(e3, ast.Call) and isinstance(e3.func, ast.Attribute) and e3.func.attr == "nonzero" and not e3.args:
+            e3 = e3.func.value
+        elif isinstance(e3, ast.Call) and dotted(e3.func) == "np.flatnonzero" and e3.args:
+            e3 = e3.args[0]
+        A_ = F_ = None
+        if isinstance(e3, ast.UnaryOp) and isinstance(e3.op, ast.Invert) and isinstance(e3.operand, ast.Call) and dotted(e3.operand.func) == "np.isin" \
+                and len(e3.operand.args) == 2 and not e3.operand.keywords:
+            A_, F_ = e3.operand.args
+        elif isinstance(e3, ast.Call) and dotted(e3.func) == "np.setdiff1d" and len(e3.args) == 2:
+            A_, F_ = e3.args
+        if A_ is not None:
+            fv_exp = src(fxx.expand_at(av, ast.Name(id=fv_name, ctx=ast.Load()))).replace(" ", "")
+            all_ok = isinstance(A_, ast.Call) and dotted(A_.func) == "np.arange" and len(A_.args) == 1 and \
+                src(A_.args[0]).replace(" ", "") in ("n", "x_cp.size", "len(x_cp)", "x_cp.shape[0]")
+            okc = all_ok and src(F_).replace(" ", "") in (fv_name, fv_exp)
     if not okc and free_masks:
         # (~mask).nonzero()[0] with the very mask of the free set
         e2 = a_exp
@@ -569,7 +589,7 @@ def rule_pin(ctx: Ctx) -> List[Ob]:
     """variables that reach a bound during the Cauchy search are pinned by copying the bound (no
     arithmetic), so that the exact tests x_cp != ub / x_cp != lb of get_freev see them as active"""
     f = ctx.repo.func("cauchy.get_cauchy_point")
-    loops = [s for s in walk_no_nested(f.node) if isinstance(s, ast.While)]
+    loops = [s for s in f.node.body if isinstance(s, (ast.While, ast.For))]
     need(len(loops) == 1, "PIN: breakpoint loop not found")
     obs: List[Ob] = []
 
